@@ -13,7 +13,9 @@ class C13(CurveCheck):
             "encodings, the 8 small-order points and their non-canonical aliases, random valid y (with and without "
             "torsion component), random invalid y, sign flips and +-1 neighbours of valid keys, lengths 0..65; "
             "sk/sk_str/sk_dec: 0,1,l-1,l,l+1,2^252..2^256-1 boundaries, random below/above l; hex: upper/mixed case, "
-            "odd length, bad characters, 0x prefix; arithmetic: frompriv/add/sub/mul/ident on random operands "
+            "odd length, bad characters, 0x prefix; pk/sk run all three acceptance routes (from_slice, TryFrom<&[u8]>, "
+            "TryFrom<[u8;32]>) and all printing routes (Display, to_string, Debug); pk_hash (Hashable) on accepted and "
+            "refused keys; txout_key (TxOut::get_one_time_key) on outputs with accepted / refused target keys and malformed outputs; viewpair (From<KeyPair>, From<&KeyPair>) on random and boundary scalars; arithmetic: frompriv/add/sub/mul/ident on random operands "
             "(incl. 0, 1, l-1 and points with torsion components), scalar add/mul/mul-by-u8; pkraw: operators on "
             "unvalidated stored bytes (non-canonical y, negative zero, undecodable -> PANIC is the modelled outcome); "
             "non-trivial = distinct case line")
@@ -83,6 +85,25 @@ class C13(CurveCheck):
         for b, cls in pkb:
             cs.append(Case("pk " + hx(b), "pk:" + cls))
         valid_keys = [b for b, cls in pkb if cls in ("random-valid-y", "prime-order", "small-order")]
+        # Hashable for PublicKey: Keccak-256 of the key bytes (accepted keys of every class, and refused ones)
+        cs.append(Case("pk_hash eac2cc96e0ae684388e3185d5277e51313bff98b9ad4a12dcd9205f20d37f1a3", "pk_hash"))
+        for b in [c for c, cls in pkb if cls == "small-order"] + rng.sample(valid_keys, 60 if q else 600):
+            cs.append(Case("pk_hash " + hx(b), "pk_hash"))
+        for b in [c for c, cls in pkb if cls in ("negative-zero", "bad-length")][:6] + [le(P + 1)]:
+            cs.append(Case("pk_hash " + hx(b), "pk_hash:rejected"))
+        # TxOut::get_one_time_key: the target key of a parsed output, present exactly when from_slice accepts it
+        tk = [(b, cls) for b, cls in pkb if len(b) == 32 and cls in ("noncanonical-y", "negative-zero", "x-zero", "small-order",
+                                                                     "small-order-alias", "valid-signflip")][::3]
+        tk += [(b, "valid") for b in rng.sample(valid_keys, 25 if q else 300)]
+        tk += [(b, cls) for b, cls in pkb if cls == "random-invalid-y"][:10]
+        for j, (b, cls) in enumerate(tk):
+            amount = ed.varint([0, 1, 127, 128, 2**32, 2**64 - 1][j % 6])
+            body = amount + (b"\x02" + b if j % 2 else b"\x03" + b + bytes([rng.getrandbits(8)]))
+            cs.append(Case("txout_key " + hx(body), "txout_key:" + cls))
+        g2 = ed.varint(5) + b"\x02" + G
+        for m in (g2 + b"\x00", g2[:-1], g2[:1], b"", ed.varint(5) + b"\x04" + G, ed.varint(5) + b"\x03" + G,
+                  ed.varint(5) + b"\x00" + G, b"\x80"):
+            cs.append(Case("txout_key " + hx(m), "txout_key:malformed"))
         # consensus form: exact, with trailing bytes, truncated; text form
         sub = [b for b, _ in pkb if len(b) == 32]
         for b in rng.sample(sub, 300 if q else 5000) + rng.sample(valid_keys, 100):
@@ -140,6 +161,13 @@ class C13(CurveCheck):
             cs.append(Case("pkop sub %s %s" % (hx(p1), hx(p2)), "pkop:sub"))
             cs.append(Case("pkop mul %s %s" % (hx(le(a)), hx(p1)), "pkop:mul"))
             cs.append(Case("pkop frompriv %s" % hx(le(a)), "pkop:frompriv"))
+        # From<KeyPair> / From<&KeyPair> for ViewPair: the view key is kept, spend = from_private_key(spend)
+        cs.append(Case("viewpair 77916d0cd56ed1920aef6ca56d8a41bac915b68e4c46a589e0956e27a7b77404 "
+                       "8163466f1883598e6dd14027b8da727057165da91485834314f5500a65846f09", "viewpair"))
+        for _ in range(60 if q else 600):
+            cs.append(Case("viewpair %s %s" % (hx(le(rs())), hx(le(rs()))), "viewpair"))
+        cs.append(Case("viewpair %s %s" % (hx(le(L)), hx(le(1))), "viewpair:rejected-operand"))
+        cs.append(Case("viewpair %s %s" % (hx(le(1)), hx(le(L + 1))), "viewpair:rejected-operand"))
         cs.append(Case("pkop add %s %s" % (hx(G), hx(G)), "pkop:add"))
         cs.append(Case("pkop sub %s %s" % (hx(G), hx(G)), "pkop:sub"))
         cs.append(Case("pkop add %s %s" % (hx(le(P + 1)), hx(G)), "pkop:rejected-operand"))
@@ -205,11 +233,41 @@ class C13(CurveCheck):
         okpk = lambda b: ed.decompress_strict(b) is not None
         oksk = lambda b: len(b) == 32 and int.from_bytes(b, "little") < L
         if op == "pk":
+            # bytes, Display, consensus bytes, bytes via TryFrom<&[u8]>, via TryFrom<[u8;32]>, to_string(), Debug:
+            # one acceptance decision on every route, every printing route = lowercase hex of the bytes
             b = arg(1)
-            return "OK %s %s %s" % (hx(b), b.hex(), hx(b)) if okpk(b) else "ERR"
+            return "OK %s %s %s %s %s %s %s" % (hx(b), b.hex(), hx(b), hx(b), hx(b), b.hex(), b.hex()) if okpk(b) else "ERR"
         if op == "sk":
             b = arg(1)
-            return "OK %s %s %s" % (hx(b), b.hex(), hx(b)) if oksk(b) else "ERR"
+            return "OK %s %s %s %s %s %s" % (hx(b), b.hex(), hx(b), hx(b), hx(b), b.hex()) if oksk(b) else "ERR"
+        if op == "pk_hash":
+            b = arg(1)
+            return "OK " + hx(ed.keccak256(b)) if okpk(b) else "ERR"
+        if op == "txout_key":
+            b = arg(1)
+            n = i = 0
+            while True:
+                if i >= len(b):
+                    return "ERR"
+                c = b[i]
+                n |= (c & 0x7f) << (7 * i)
+                i += 1
+                if not c & 0x80:
+                    break
+                if i >= 10:
+                    return None
+            if n >= 2**64 or ed.varint(n) != b[:i]:
+                return None                      # varint corner cases belong to C14
+            if i >= len(b) or b[i] not in (2, 3) or len(b) != i + 1 + 32 + (b[i] == 3):
+                return "ERR"
+            k = b[i + 1:i + 33]
+            return "OK " + (hx(k) if okpk(k) else "-")
+        if op == "viewpair":
+            v, s_ = arg(1), arg(2)
+            if not oksk(v) or not oksk(s_):
+                return "ERR"
+            S = hx(ed.compress(ed.mul(int.from_bytes(s_, "little"), ed.B)))
+            return "OK %s %s %s %s %s" % (hx(v), S, hx(v), S, S)
         if op in ("pk_str", "sk_str"):
             b = self.hexdecode(arg(1).decode())
             if b is None:
